@@ -221,7 +221,7 @@ Section Skeleton.
     rewrite !cp_lab_pair in Nl. destruct (upair _ _ _ _) eqn:U; [|reflexivity]. exfalso. apply Nl. f_equal.
     unfold pair_of, cp_u, cp_v in U. cbn [fst snd] in U. apply upair_true in U.
     destruct (cut_ends C W b Hb) as (Fu & Fv & _). destruct (cut_ends C W b' Hb') as (Fu' & Fv' & _).
-    apply (cuts_in C) in Hb as [Hb _]. apply (cuts_in C) in Hb' as [Hb' _]. apply (wc_simple C W b b' Hb Hb').
+    apply (cuts_in C) in Hb as [Hb _]. apply (cuts_in C) in Hb' as [Hb' _]. apply (bonds_simple C W b b' Hb Hb').
     assert (forall t b0, In (cb_u b0) (flat C) -> In (cb_v b0) (flat C) -> In (bend t b0) (flat C)) as Fb by (intros [] ? ? ?; assumption).
     destruct U as [[A1 A2]|[A1 A2]]; apply (phi_inj C) in A1; auto; apply (phi_inj C) in A2; auto;
       unfold same_ends; destruct s, s'; cbn in A1, A2; auto.
@@ -237,18 +237,25 @@ Section Skeleton.
     apply (tbl_from_rows C) in Hin as (i & x & _ & _ & -> & _). apply (descs_in C) in Hd as (b & s & _ & _ & ->). apply dtext_good.
   Qed.
 
-  Theorem cut_bonding_skeleton :
-    exists m1 fg1 m2 fg2,
-      resolve_disconnected fd B = Ok (m1, fg1) /\ bonding_step true aa B m1 fg1 = Ok (m2, fg2) /\
-      node_keys m2 = map Z.of_nat (seq 0 (length (flat C))) /\
-      (forall x, In x (flat C) ->
+  (** what the theorem says about the fine graph [m2] *)
+  Record skeleton (m2 : graph) : Prop := {
+    sk_keys : node_keys m2 = map Z.of_nat (seq 0 (length (flat C)));
+    sk_attrs : forall x, In x (flat C) ->
          node_get m2 (phi C x) (S "fragid") = Some (VList [VInt (Z.of_nat (owner C x))]) /\
          node_get m2 (phi C x) (S "aromatic") = aget (S "aromatic") (payload C x) /\
+         node_get m2 (phi C x) (S "rs_isomer") = None /\
          forall key v, aget key (payload C x) = Some v -> ~ In key reserved -> (aa = true -> key <> S "hcount") ->
-                       node_get m2 (phi C x) key = Some v) /\
-      (forall x y, In x (flat C) -> In y (flat C) ->
+                       node_get m2 (phi C x) key = Some v;
+    sk_edges : forall x y, In x (flat C) -> In y (flat C) ->
          has_edge m2 (phi C x) (phi C y) = bonded C x y /\ edge_get m2 (phi C x) (phi C y) (S "order") = result_order C x y /\
-         (edge_get m2 (phi C x) (phi C y) (S "bonding") <> None <-> exists b, find_bond C x y = Some b /\ is_cut C b = true)).
+         (forall b, find_bond C x y = Some b -> is_cut C b = true -> edge_get m2 (phi C x) (phi C y) (S "bonding") <> None) /\
+         (forall bv, edge_get m2 (phi C x) (phi C y) (S "bonding") = Some bv ->
+            exists b s, find_bond C x y = Some b /\ is_cut C b = true /\ bv = VTup [VStr (dtext s b); VStr (dtext (negb s) b)]);
+    sk_closed : forall k1 k2, has_edge m2 k1 k2 = true -> has_node m2 k1 = true /\ has_node m2 k2 = true }.
+
+  Theorem cut_bonding_skeleton :
+    exists m1 fg1 m2 fg2,
+      resolve_disconnected fd B = Ok (m1, fg1) /\ bonding_step true aa B m1 fg1 = Ok (m2, fg2) /\ skeleton m2.
   Proof.
     destruct (disconnected_total C W fd HT B HB) as (m1 & fg1 & Hdisc & I).
     assert (Htab : tables_of fg1 = Ok (tables C)) by (rewrite (i_tables _ _ _ _ I), firstn_all; reflexivity).
@@ -289,7 +296,7 @@ Section Skeleton.
       destruct (cut_ends C W b Hb) as (_ & _ & N). destruct s; cbn in X; congruence. }
     set (BE := map bond_edge bonds).
     assert (Hsimple : forall b b' x y, In b (c_bonds C) -> In b' (c_bonds C) -> joins b x y = true -> joins b' x y = true -> b = b').
-    { intros b b' x y Hb Hb' J J'. apply (wc_simple C W b b' Hb Hb'). apply joins_true in J. apply joins_true in J'. unfold same_ends.
+    { intros b b' x y Hb Hb' J J'. apply (bonds_simple C W b b' Hb Hb'). apply joins_true in J. apply joins_true in J'. unfold same_ends.
       destruct J as [[A1 A2]|[A1 A2]], J' as [[A1' A2']|[A1' A2']]; [left|right|right|left]; split; congruence. }
     destruct (add_edges_spec BE m1) as (KB & AB & EB).
     { intros e He. unfold BE in He. apply in_map_iff in He as (bd & <- & Hin). exact (Hends bd Hin). }
@@ -320,20 +327,22 @@ Section Skeleton.
     fold BE in E2.
     exists m1, fg1, m2, (write_tables s1 fg1). split; [exact Hdisc|]. split.
     { unfold bonding_step, bonds_of. rewrite base_edges_ok, Htab. cbn [bind]. rewrite Hrun. cbn [bind]. rewrite Hap. reflexivity. }
-    split; [congruence|]. split.
-    - intros x Hx. destruct (Hattr1 x Hx) as (a & Ea & Fa). split; [|split].
+    constructor; [congruence| | |].
+    - intros x Hx. destruct (Hattr1 x Hx) as (a & Ea & Fa). split; [|split; [|split]].
       + rewrite G2 by (intros _ E; apply str_eqb_eq in E; vm_compute in E; discriminate). now rewrite node_get_via, Ea, (fa_fragid _ _ _ Fa).
       + rewrite G2 by (intros _ E; apply str_eqb_eq in E; vm_compute in E; discriminate). now rewrite node_get_via, Ea, (fa_arom _ _ _ Fa).
+      + rewrite G2 by (intros _ E; apply str_eqb_eq in E; vm_compute in E; discriminate). now rewrite node_get_via, Ea, (fa_rs _ _ _ Fa).
       + intros key v Hv Hr Hh. rewrite G2 by exact Hh. rewrite node_get_via, Ea. now apply (fa_payload _ _ _ Fa).
     - intros x y Hx Hy.
       assert (Em2 : edge_attrs m2 (phi C x) (phi C y) =
                     match find_edge (phi C x) (phi C y) BE with Some e => Ok (aupdate [] (ed e)) | None => edge_attrs m1 (phi C x) (phi C y) end)
         by (rewrite E2; apply EB).
       assert (F1 : forall e, find_edge (phi C x) (phi C y) BE = Some e ->
-                exists b bd, In b (cuts C) /\ joins b x y = true /\ ed e = bond_attrs bd /\ b_order bd = cut_order C b).
+                exists b bd s, In b (cuts C) /\ joins b x y = true /\ ed e = bond_attrs bd /\ b_order bd = cut_order C b /\
+                               b_d1 bd = dtext s b /\ b_d2 bd = dtext (negb s) b).
       { intros e Ef. apply find_some in Ef as [Hin U]. unfold BE in Hin. apply in_map_iff in Hin as (bd & <- & Hin).
-        destruct (Hbond bd Hin) as (b & s & Hb & E & Ho). exists b, bd. split; [exact Hb|]. split; [|split; [reflexivity|exact Ho]].
-        unfold bond_cp, pair_of in E. inversion E as [[E1 E2' E3 E4]]. unfold bond_edge, eu, ev in U. cbn [fst snd] in U. rewrite E1, E3 in U.
+        destruct (Hbond bd Hin) as (b & s & Hb & E & Ho). exists b, bd, s. unfold bond_cp, pair_of in E. inversion E as [[E1 E2' E3 E4]].
+        split; [exact Hb|]. split; [|split; [reflexivity|split; [exact Ho|split; reflexivity]]]. unfold bond_edge, eu, ev in U. cbn [fst snd] in U. rewrite E1, E3 in U.
         apply upair_true in U. apply joins_true.
         destruct U as [[A1 A2]|[A1 A2]]; apply (phi_inj C) in A1; auto; apply (phi_inj C) in A2; auto; destruct s; cbn in A1, A2; auto. }
       assert (F2 : forall b, In b (cuts C) -> joins b x y = true -> find_edge (phi C x) (phi C y) BE <> None).
@@ -346,20 +355,21 @@ Section Skeleton.
         unfold bond_cp, pair_of in E. inversion E as [[E1 E2' E3 E4]]. unfold bond_edge, eu, ev. cbn [fst snd]. rewrite E1, E3.
         apply upair_true. apply joins_true in J. destruct J as [[A1 A2]|[A1 A2]]; destruct s; cbn; rewrite <- ?A1, <- ?A2; auto. }
       assert (Hbo : forall bd, aget (S "order") (aupdate [] (bond_attrs bd)) = Some (b_order bd) /\
-                               aget (S "bonding") (aupdate [] (bond_attrs bd)) <> None).
+                               aget (S "bonding") (aupdate [] (bond_attrs bd)) = Some (VTup [VStr (b_d1 bd); VStr (b_d2 bd)])).
       { intros bd. assert (NoDup (map fst (bond_attrs bd))) as Hn.
         { cbn. constructor; [intros [X|[]]; apply str_eqb_eq in X; vm_compute in X; discriminate|constructor; [tauto|constructor]]. }
-        rewrite !aget_aupdate_nodup by exact Hn. split; [reflexivity|discriminate]. }
+        rewrite !aget_aupdate_nodup by exact Hn. split; reflexivity. }
       unfold bonded, result_order, edge_get. rewrite has_edge_attrs, Em2.
       destruct (find_bond C x y) as [b|] eqn:Efb.
       + apply find_some in Efb as [Hb J]. destruct (is_cut C b) eqn:Ec.
         * assert (In b (cuts C)) as Hbc by (apply (cuts_in C); auto).
           destruct (find_edge (phi C x) (phi C y) BE) as [e|] eqn:Ef; [|exfalso; exact (F2 b Hbc J eq_refl)].
-          destruct (F1 e eq_refl) as (b' & bd & Hb' & J' & Ed & Ho). apply (cuts_in C) in Hb' as [Hb' _].
-          pose proof (Hsimple b' b x y Hb' Hb J' J). subst b'. rewrite Ed. destruct (Hbo bd) as [O1 O2]. rewrite O1, Ho.
-          split; [reflexivity|]. split; [reflexivity|]. split; [intros _; eauto|intros _; exact O2].
+          destruct (F1 e eq_refl) as (b' & bd & s & Hb' & J' & Ed & Ho & D1 & D2). apply (cuts_in C) in Hb' as [Hb' _].
+          pose proof (Hsimple b' b x y Hb' Hb J' J). subst b'. rewrite Ed. destruct (Hbo bd) as [O1 O2]. rewrite O1, O2, Ho.
+          split; [reflexivity|]. split; [reflexivity|]. split; [intros; discriminate|].
+          intros bv Ebv. inversion Ebv; subst bv. exists b, s. rewrite D1, D2. auto.
         * destruct (find_edge (phi C x) (phi C y) BE) as [e|] eqn:Ef.
-          { exfalso. destruct (F1 e eq_refl) as (b' & bd & Hb' & J' & _). apply (cuts_in C) in Hb' as [Hb' Hc'].
+          { exfalso. destruct (F1 e eq_refl) as (b' & bd & s & Hb' & J' & _). apply (cuts_in C) in Hb' as [Hb' Hc'].
             pose proof (Hsimple b' b x y Hb' Hb J' J). subst b'. congruence. }
           assert (owner C (cb_u b) < length (c_parts C))%nat as Hlt by (apply owner_lt; [exact Hnd|]; now destruct (wc_ends C W b Hb)).
           destruct (i_edge2 _ _ _ _ I b Hb Ec Hlt) as [H1 H2].
@@ -368,14 +378,22 @@ Section Skeleton.
           destruct (i_edge1 _ _ _ _ I _ _ _ Ed) as (x' & y' & b' & Hx' & Hy' & Px & Py & Hb' & Nc & J' & Od & Bd).
           apply (phi_inj C) in Px; auto. apply (phi_inj C) in Py; auto. subst x' y'.
           pose proof (Hsimple b' b x y Hb' Hb J' J). subst b'. rewrite Od, Bd.
-          split; [reflexivity|]. split; [reflexivity|]. split; [congruence|]. intros (b0 & E0 & C0). inversion E0; subst. congruence.
+          split; [reflexivity|]. split; [reflexivity|]. split; [intros b0 E0 C0; inversion E0; subst; congruence|]. intros bv Ebv. discriminate.
       + destruct (find_edge (phi C x) (phi C y) BE) as [e|] eqn:Ef.
-        { exfalso. destruct (F1 e eq_refl) as (b' & bd & Hb' & J' & _). apply (cuts_in C) in Hb' as [Hb' _].
+        { exfalso. destruct (F1 e eq_refl) as (b' & bd & s & Hb' & J' & _). apply (cuts_in C) in Hb' as [Hb' _].
           unfold find_bond in Efb. pose proof (find_none _ _ Efb b' Hb') as X. cbn beta in X. congruence. }
         destruct (edge_attrs m1 (phi C x) (phi C y)) as [d|] eqn:Ed.
         { exfalso. destruct (i_edge1 _ _ _ _ I _ _ _ Ed) as (x' & y' & b' & Hx' & Hy' & Px & Py & Hb' & Nc & J' & _).
           apply (phi_inj C) in Px; auto. apply (phi_inj C) in Py; auto. subst x' y'.
           unfold find_bond in Efb. pose proof (find_none _ _ Efb b' Hb') as X. cbn beta in X. congruence. }
-        split; [reflexivity|]. split; [reflexivity|]. split; [congruence|]. intros (b0 & E0 & _). discriminate.
+        split; [reflexivity|]. split; [reflexivity|]. split; [intros b0 E0; discriminate|]. intros bv Ebv. discriminate.
+    - intros k1 k2 He. rewrite has_edge_attrs, E2, EB in He.
+      assert (forall k, has_node m1 k = true -> has_node m2 k = true) as Hk by (intros k Hk; now rewrite (has_node_keys_eq m2 m1 k K2)).
+      destruct (find_edge k1 k2 BE) as [e|] eqn:Ef.
+      + apply find_some in Ef as [Hin U]. unfold BE in Hin. apply in_map_iff in Hin as (bd & <- & Hin).
+        destruct (Hends bd Hin) as (A1 & A2 & _). unfold bond_edge, eu, ev in U. cbn [fst snd] in U. apply upair_true in U.
+        destruct U as [[-> ->]|[-> ->]]; split; now apply Hk.
+      + rewrite <- has_edge_attrs in He. apply (i_closed _ _ _ _ I) in He. rewrite off_total in He.
+        split; apply Hk, gfind_has; rewrite Hkeys1; apply seq_nat_in; lia.
   Qed.
 End Skeleton.
